@@ -262,6 +262,9 @@ class ParametricTransform:
             raise TypeError(
                 f"{type(self).__name__}.link() 'other' must be of the same type, got {type(other).__name__}"
             )
+        if isinstance(self.params, Parameter):
+            # Module.__setattr__ refuses to assign a Module to a registered parameter name
+            del self._parameters["params"]
         self.params = other
         if not hasattr(self, "p"):
             if other.params is None:
